@@ -415,6 +415,75 @@ def spStepLenNorm [OfNat F 1] (edges : List F) (s : SpState F) (xs : List F) : S
 
 end histnum
 
+/-! ## Part 4 — evaluation caches and products (state carried between evaluations)
+
+`MultiDimGridPDF` keeps the densities of the current trial (`_cache_pd`, keyed by the trial data
+state id) when `cache_pd_values` is set; `PDFProduct` multiplies the arrays its factors hand out —
+for several PDF classes these are the factors' *internal* pre-calculated arrays, so the product
+must not write into them. -/
+
+structure GState (F : Type) where
+  key : Option Nat            -- `_cache_tdm_trial_data_state_id`
+  cache : Option (List F)     -- `_cache_pd`
+
+section grid
+variable [Mul F]
+
+/-- `MultiDimGridPDF.get_pd` for the trial with state id `id` (all values requested): `raw id` are the
+interpolated grid values, `norm id` the values of `norm_factor_func`; as coded the *normalised*
+values are stored. -/
+def gEval (cacheOn : Bool) (raw norm : Nat → List F) (s : GState F) (id : Nat) : GState F × List F :=
+  let hit : Option (List F) := if cacheOn then (if s.key = some id then s.cache else none) else none
+  match hit with
+  | some pd => (s, pd)
+  | none =>
+    let pd := List.zipWith (· * ·) (raw id) (norm id)
+    (if cacheOn then { key := some id, cache := some pd } else s, pd)
+
+/-- a variant that stores the values before the normalisation (not the code; kept for
+`c10_grid_cache_store_raw_counterexample`) -/
+def gEvalStoreRaw (cacheOn : Bool) (raw norm : Nat → List F) (s : GState F) (id : Nat) : GState F × List F :=
+  let hit : Option (List F) := if cacheOn then (if s.key = some id then s.cache else none) else none
+  match hit with
+  | some pd => (s, pd)
+  | none =>
+    let pd := List.zipWith (· * ·) (raw id) (norm id)
+    (if cacheOn then { key := some id, cache := some (raw id) } else s, pd)
+
+/-- the densities returned for a sequence of evaluations (trial ids) on one object -/
+def gRun (step : GState F → Nat → GState F × List F) : GState F → List Nat → List (List F)
+  | _, [] => []
+  | s, id :: rest => let r := step s id; r.2 :: gRun step r.1 rest
+
+/-- two factor PDFs with their internal per-trial arrays -/
+structure PState (F : Type) where
+  b1 : List F
+  b2 : List F
+
+inductive POp where
+  | evalProduct
+  | readLeft
+  | readRight
+
+/-- `PDFProduct.get_pd` as coded (`pd = pd1 * pd2`, a new array) and the reads of the factors -/
+def pStep (s : PState F) : POp → PState F × List F
+  | .evalProduct => (s, List.zipWith (· * ·) s.b1 s.b2)
+  | .readLeft => (s, s.b1)
+  | .readRight => (s, s.b2)
+
+/-- in-place multiplication into the left factor's array (not the code; kept for
+`c10_product_inplace_counterexample`) -/
+def pStepInPlace (s : PState F) : POp → PState F × List F
+  | .evalProduct => let p := List.zipWith (· * ·) s.b1 s.b2; ({ s with b1 := p }, p)
+  | .readLeft => (s, s.b1)
+  | .readRight => (s, s.b2)
+
+def pRun (step : PState F → POp → PState F × List F) : PState F → List POp → List (List F)
+  | _, [] => []
+  | s, op :: rest => let r := step s op; r.2 :: pRun step r.1 rest
+
+end grid
+
 /-! ## Part 3 — point-spread densities and the 1/2π factor -/
 
 section psf
